@@ -102,17 +102,20 @@ def reopen (future rest : List (Entry V)) (s : Int) : List (Entry V) :=
     | e :: _ => [⟨s, e.val⟩]                      -- `elif i < n`: the overlapped value goes on after `stop`
     | [] => [⟨s, none⟩]                           -- nothing earlier: undefined after `stop`
 
+/-- the body of `Parameter.update` for a closed range: `a` = `start_str`, `s` = `stop_str`
+    (the day after `stop`). All five phases, in the code's order. -/
+def updateSpan (l : List (Entry V)) (a s : Int) (v : Option V) : List (Entry V) :=
+  let future := keepFrom l s                          -- phase 1
+  let rest := skipFrom l s                            -- `old_values[i:]`
+  future ++ reopen future rest s                      -- phase 2
+    ++ (⟨a, v⟩ :: skipFrom rest a)                    -- phases 3, 4, 5
+
 /-- `Parameter.update` once `start` / `stop` are known; `stop = none` is the open-ended form.
-    `a` = start, `b` = stop (inclusive last day). All five phases, in the code's order. -/
+    `a` = start, `b` = stop (inclusive last day); `stop.offset(1, "day")` is `b + 1`. -/
 def update (l : List (Entry V)) (a : Int) (stop : Option Int) (v : Option V) : List (Entry V) :=
   match stop with
   | none => ⟨a, v⟩ :: skipFrom l a                      -- phases 1-2 do not run
-  | some b =>
-    let s := b + 1                                      -- `stop.offset(1, "day")`
-    let future := keepFrom l s                          -- phase 1
-    let rest := skipFrom l s                            -- `old_values[i:]`
-    future ++ reopen future rest s                      -- phase 2
-      ++ (⟨a, v⟩ :: skipFrom rest a)                    -- phases 3, 4, 5
+  | some b => updateSpan l a (b + 1) v
 
 /-- the argument checking at the top of `Parameter.update`: `period` (given as its first and last
     day) excludes `start` / `stop`; a start is mandatory -/
@@ -276,6 +279,390 @@ def mergeChildren (cs : List (String × PNode V)) : List (String × PNode V) →
     match addChild cs k c with
     | .ok cs' => mergeChildren cs' rest
     | .error e => .error e
+
+/-! ## Keys spelled `YYYY`, `YYYY-MM`, `YYYY-MM-DD`
+
+`INSTANT_PATTERN` accepts the three spellings; the code keeps the key TEXT as `instant_str` and compares
+texts. A short key is a proper prefix of the full spelling of its first day, hence sorts just BEFORE it
+and after every earlier day: `"2014-12-31" < "2015" < "2015-01" < "2015-01-01" < "2015-01-02"`. The
+model keeps three ticks per day: the full spelling of day `o` is `3 * o`, the month spelling whose first
+day is `o` is `3 * o - 1`, the year spelling `3 * o - 2` (`Lemmas/Param.lean`, `fine_lt_of_lex`: the order
+of the ticks is the order of the texts). Query dates and the bounds of `update` are full dates. -/
+
+inductive Spell where
+  | year | month | day
+deriving Repr, DecidableEq
+
+/-- the tick of a key whose first day has ordinal `o` -/
+def fine (o : Int) : Spell → Int
+  | .day => 3 * o
+  | .month => 3 * o - 1
+  | .year => 3 * o - 2
+
+/-- `Parameter.update` on a history whose keys are ticks: `start_str` and `stop_str` are full dates -/
+def updateFine (l : List (Entry V)) (a : Int) (stop : Option Int) (v : Option V) : List (Entry V) :=
+  match stop with
+  | none => ⟨3 * a, v⟩ :: skipFrom l (3 * a)
+  | some b => updateSpan l (3 * a) (3 * (b + 1)) v
+
+/-- the same argument checking as `updateCall` -/
+def updateCallFine (l : List (Entry V)) (period : Option (Int × Int)) (start stop : Option Int)
+    (v : Option V) : Except String (List (Entry V)) :=
+  match period with
+  | some (ps, pe) =>
+    if start.isSome || stop.isSome then .error "TypeError: both period and start/stop"
+    else .ok (updateFine l ps (some pe) v)
+  | none =>
+    match start with
+    | none => .error "ValueError: neither start nor period"
+    | some a => .ok (updateFine l a stop v)
+
+/-! ## Construction from YAML-like data: `helpers._parse_child` and the constructors it dispatches to
+
+`Parameter.__init__`, `ParameterAtInstant.__init__` / `validate`, `ParameterNode.__init__(data=…)`,
+`ParameterScale.__init__`, `ParameterScaleBracket` — with every branch that raises. Which exception class is
+raised is not modelled (`.error` carries a hint only). -/
+
+/-- a mapping key as the YAML loader / a Python dict hands it over -/
+inductive YKey where
+  | date (o : Int) (sp : Spell) (text : String)   -- a text matching `INSTANT_PATTERN`; `o` = ordinal of its first day
+  | name (s : String)                             -- any other text
+  | int (i : Int)                                 -- an integer (YAML `2: …`)
+deriving Repr, DecidableEq
+
+/-- what `yaml.load` returns (numbers as canonical tokens) -/
+inductive Y where
+  | null
+  | bool (b : Bool)
+  | num (tok : String)
+  | str (s : String)
+  | list (xs : List Y)
+  | map (kvs : List (YKey × Y))
+
+/-- `str(key)` -/
+def YKey.text : YKey → String
+  | .date _ _ t => t
+  | .name s => s
+  | .int i => toString i
+
+/-- `periods.INSTANT_PATTERN.match(str(key))` (an integer prints as four digits iff it is in 1000..9999) -/
+def YKey.isInstant : YKey → Bool
+  | .date _ _ _ => true
+  | .name _ => false
+  | .int i => decide (1000 ≤ i) && decide (i ≤ 9999)
+
+def YKey.isName (k : YKey) (s : String) : Bool :=
+  match k with
+  | .name t => t == s
+  | .date _ _ _ => false
+  | .int _ => false
+
+/-- `data.get(s)` -/
+def lookupName : List (YKey × Y) → String → Option Y
+  | [], _ => none
+  | (k, y) :: r, s => if k.isName s then some y else lookupName r s
+
+/-- `s in data` -/
+def hasName (kvs : List (YKey × Y)) (s : String) : Bool := (lookupName kvs s).isSome
+
+def commonKeys : List String := ["description", "metadata", "unit", "reference", "documentation"]
+
+def YKey.within (k : YKey) (allowed : List String) : Bool :=
+  match k with
+  | .name s => allowed.contains s
+  | .date _ _ _ => false
+  | .int _ => false
+
+/-- `_validate_parameter(…, allowed_keys=…)` passes -/
+def keysWithin (kvs : List (YKey × Y)) (allowed : List String) : Bool := kvs.all (fun p => p.1.within allowed)
+
+/-- Python truthiness -/
+def Y.truthy : Y → Bool
+  | .null => false
+  | .bool b => b
+  | .num t => t != "0"
+  | .str s => s != ""
+  | .list xs => !xs.isEmpty
+  | .map kvs => !kvs.isEmpty
+
+/-- `self.metadata.update(data.get("metadata", {}))` succeeds (a mapping, or no such key) -/
+def metaOk (kvs : List (YKey × Y)) : Bool :=
+  match lookupName kvs "metadata" with
+  | none => true
+  | some (.map _) => true
+  | some .null => false
+  | some (.bool _) => false
+  | some (.num _) => false
+  | some (.str _) => false
+  | some (.list _) => false
+
+/-- the token of a list element -/
+def Y.elemTok : Y → String
+  | .null => "none"
+  | .bool b => if b then "T" else "F"
+  | .num t => t
+  | .str _ => "?"
+  | .list _ => "?"
+  | .map _ => "?"
+
+/-- `isinstance(x, ALLOWED_PARAM_TYPES)` (float, int, bool, None, list) and the value's token -/
+def Y.valTok : Y → Option (Option String)
+  | .null => some none
+  | .bool b => some (some (if b then "T" else "F"))
+  | .num t => some (some t)
+  | .list xs => some (some ("L" ++ "_".intercalate (xs.map Y.elemTok)))
+  | .str _ => none
+  | .map _ => none
+
+def atInstantKeys : List String := ["value", "metadata", "unit", "reference"]
+
+/-- what a date key maps to: the `expected` test of `Parameter.__init__`, then `ParameterAtInstant.__init__` -/
+def itemOf : Y → Except String (Item String)
+  | .str s => if s == "expected" then .ok .expected else .error "must be of type object"
+  | .map kvs =>
+    if (match lookupName kvs "expected" with | some e => e.truthy | none => false) then .ok .expected
+    else if !keysWithin kvs atInstantKeys then .error "Unexpected property"
+    else match lookupName kvs "value" with
+      | none => .error "Missing 'value' property"
+      | some v =>
+        match v.valTok with
+        | none => .error "not one of the allowed types"
+        | some tok => if metaOk kvs then .ok (.value tok) else .error "metadata"
+  | .null => .ok (.value none)
+  | .bool b => .ok (.value (some (if b then "T" else "F")))
+  | .num t => .ok (.value (some t))
+  | .list xs => .ok (.value (some ("L" ++ "_".intercalate (xs.map Y.elemTok))))
+
+/-- the loop of `Parameter.__init__` over the keys: every key must be an instant TEXT -/
+def paramItems : List (YKey × Y) → Except String (List (Int × Item String))
+  | [] => .ok []
+  | (.date o sp _, y) :: r =>
+    match itemOf y, paramItems r with
+    | .ok it, .ok its => .ok ((fine o sp, it) :: its)
+    | .error e, _ => .error e
+    | _, .error e => .error e
+  | (.name _, _) :: _ => .error "Invalid property: must be a valid YYYY-MM-DD instant"
+  | (.int _, _) :: _ => .error "TypeError: expected string"
+
+/-- the mapping holding the dated values: under `values` (the declaration with description and metadata)
+    or the data itself (simplified declaration) -/
+def paramValues (kvs : List (YKey × Y)) : Except String (List (YKey × Y)) :=
+  match lookupName kvs "values" with
+  | some vs =>
+    if vs.truthy then
+      if !keysWithin kvs (commonKeys ++ ["values"]) then .error "Unexpected property"
+      else if !metaOk kvs then .error "metadata"
+      else match vs with
+        | .map vkvs => .ok vkvs
+        | .null => .error "must be of type object"
+        | .bool _ => .error "must be of type object"
+        | .num _ => .error "must be of type object"
+        | .str _ => .error "must be of type object"
+        | .list _ => .error "must be of type object"
+    else .ok kvs          -- `if data.get("values")` is false: the key `values` is then taken for an instant
+  | none => .ok kvs
+
+/-- `Parameter.__init__(name, data)` for a mapping `data`: the values list, in ticks -/
+def buildParam (kvs : List (YKey × Y)) : Except String (List (Entry String)) :=
+  match paramValues kvs with
+  | .error e => .error e
+  | .ok vs =>
+    match paramItems vs with
+    | .error e => .error e
+    | .ok its => .ok (ofData its)
+
+def bracketKeys : List String := ["amount", "threshold", "rate", "average_rate"]
+
+/-- `metadata.get("type") == "single_amount"` -/
+def isSingleAmount (kvs : List (YKey × Y)) : Bool :=
+  match lookupName kvs "metadata" with
+  | some (.map m) =>
+    (match lookupName m "type" with
+     | some (.str s) => s == "single_amount"
+     | _ => false)
+  | _ => false
+
+/-- a bracket field must be a dated parameter with numeric values (anything else is outside the model:
+    `UNSUP`) -/
+def ratEntries (rat : String → Option Rat) : List (Entry String) → Option (List (Entry Rat))
+  | [] => some []
+  | e :: r =>
+    match (match e.val with
+           | none => some none
+           | some t => (rat t).map some), ratEntries rat r with
+    | some v, some r' => some (⟨e.date, v⟩ :: r')
+    | _, _ => none
+
+def setField (b : Bracket) (k : String) (l : List (Entry Rat)) : Bracket :=
+  if k == "threshold" then { b with threshold := l }
+  else if k == "rate" then { b with rate := l }
+  else if k == "amount" then { b with amount := l }
+  else { b with averageRate := l }
+
+mutual
+/-- `helpers._parse_child(name, child, path)` -/
+def parseChild (rat : String → Option Rat) : Y → Except String (PNode String)
+  | .map kvs =>
+    if hasName kvs "values" then
+      match buildParam kvs with
+      | .ok l => .ok (.param l)
+      | .error e => .error e
+    else if hasName kvs "brackets" then
+      -- `ParameterScale.__init__`
+      if !keysWithin kvs (commonKeys ++ ["brackets"]) then .error "Unexpected property"
+      else if !metaOk kvs then .error "metadata"
+      else match scaleBrackets rat kvs with
+        | .ok bs => .ok (.scale (isSingleAmount kvs) bs)
+        | .error e => .error e
+    else if kvs.all (fun p => p.1.isInstant) then
+      match buildParam kvs with
+      | .ok l => .ok (.param l)
+      | .error e => .error e
+    else
+      -- `ParameterNode.__init__(name, data=child)`
+      if !metaOk kvs then .error "metadata"
+      else match nodeKids rat kvs [] with
+        | .ok cs => .ok (.node cs)
+        | .error e => .error e
+  | .null => .error "TypeError: argument of type 'NoneType' is not iterable"
+  | .bool _ => .error "TypeError: argument of type 'bool' is not iterable"
+  | .num _ => .error "TypeError: argument of type 'int' is not iterable"
+  | .str _ => .error "must be of type object"
+  | .list _ => .error "must be of type object"
+/-- the loop of `ParameterNode.__init__` over `data.items()`: reserved keys are not members, a key is
+    turned into text, the child is parsed and handed to `add_child` -/
+def nodeKids (rat : String → Option Rat) : List (YKey × Y) → List (String × PNode String) →
+    Except String (List (String × PNode String))
+  | [], acc => .ok acc
+  | (k, y) :: r, acc =>
+    if k.within commonKeys then nodeKids rat r acc
+    else match parseChild rat y with
+      | .error e => .error e
+      | .ok c =>
+        match addChild acc k.text c with
+        | .error e => .error e
+        | .ok acc' => nodeKids rat r acc'
+/-- `data.get("brackets", [])`, which must be a list -/
+def scaleBrackets (rat : String → Option Rat) : List (YKey × Y) → Except String (List Bracket)
+  | [] => .ok []
+  | (k, y) :: r =>
+    if k.isName "brackets" then
+      match y with
+      | .list xs => bracketList rat xs
+      | .null => .error "must be of type array"
+      | .bool _ => .error "must be of type array"
+      | .num _ => .error "must be of type array"
+      | .str _ => .error "must be of type array"
+      | .map _ => .error "must be of type array"
+    else scaleBrackets rat r
+def bracketList (rat : String → Option Rat) : List Y → Except String (List Bracket)
+  | [] => .ok []
+  | b :: r =>
+    match bracketOf rat b with
+    | .error e => .error e
+    | .ok x =>
+      match bracketList rat r with
+      | .error e => .error e
+      | .ok xs => .ok (x :: xs)
+/-- `ParameterScaleBracket(name, data)`: a node whose keys are restricted to the four fields -/
+def bracketOf (rat : String → Option Rat) : Y → Except String Bracket
+  | .map kvs =>
+    if !keysWithin kvs bracketKeys then .error "Unexpected property"
+    else bracketFields rat kvs ⟨[], [], [], []⟩
+  | .null => .error "must be of type object"
+  | .bool _ => .error "must be of type object"
+  | .num _ => .error "must be of type object"
+  | .str _ => .error "must be of type object"
+  | .list _ => .error "must be of type object"
+def bracketFields (rat : String → Option Rat) : List (YKey × Y) → Bracket → Except String Bracket
+  | [], b => .ok b
+  | (k, y) :: r, b =>
+    match parseChild rat y with
+    | .error e => .error e
+    | .ok (.param l) =>
+      (match ratEntries rat l with
+       | some l' => bracketFields rat r (setField b k.text l')
+       | none => .error "UNSUP")
+    | .ok (.scale _ _) => .error "UNSUP"
+    | .ok (.node _) => .error "UNSUP"
+end
+
+/-! ## Construction from a directory of YAML files: `ParameterNode.__init__(name, directory_path=…)` -/
+
+/-- an entry of a directory listing: a file (`os.path.splitext` of its name, and what `yaml.load` makes of its
+    content) or a sub-directory -/
+inductive DirEnt where
+  | file (stem ext : String) (content : Y)
+  | dir (name : String) (entries : List DirEnt)
+
+/-- `config.FILE_EXTENSIONS` -/
+def yamlExts : List String := [".yaml", ".yml"]
+
+/-- `index.yaml`: `data = _load_yaml_file(path) or {}`, the keys must be the reserved ones, the metadata a
+    mapping (a content that is true but not a mapping has no `.keys()`) -/
+def indexOk : Y → Bool
+  | .map kvs => keysWithin kvs commonKeys && metaOk kvs
+  | .null => true
+  | .bool b => !b
+  | .num t => t == "0"
+  | .str t => t == ""
+  | .list xs => xs.isEmpty
+
+mutual
+/-- one entry of the listing: files of other types are ignored, `index` describes the node itself, any other
+    YAML file is a child named by its stem (`load_parameter_file` → `_parse_child`), a sub-directory is a child
+    node; every child goes through `add_child`, so `a.yaml` beside `a.yml` or beside a directory `a` is refused -/
+def buildEnt (rat : String → Option Rat) : DirEnt → List (String × PNode String) →
+    Except String (List (String × PNode String))
+  | .file stem ext content, acc =>
+    if !yamlExts.contains ext then .ok acc
+    else if stem == "index" then
+      if indexOk content then .ok acc else .error "index: unexpected property"
+    else
+      match parseChild rat content with
+      | .error e => .error e
+      | .ok c => addChild acc stem c
+  | .dir name entries, acc =>
+    match buildDir rat entries [] with
+    | .error e => .error e
+    | .ok cs => addChild acc name (.node cs)
+/-- the loop over `os.listdir(directory_path)`, in listing order -/
+def buildDir (rat : String → Option Rat) : List DirEnt → List (String × PNode String) →
+    Except String (List (String × PNode String))
+  | [], acc => .ok acc
+  | e :: r, acc =>
+    match buildEnt rat e acc with
+    | .error err => .error err
+    | .ok acc' => buildDir rat r acc'
+end
+
+/-! ## Names: what a missing member is called -/
+
+/-- `helpers._compose_name(path, child_name)` -/
+def composeChild (path child : String) : String := if path == "" then child else path ++ "." ++ child
+
+/-- `helpers._compose_name(path, item_name=key)`, the name `ParameterNotFoundError` carries when
+    `node_at_instant.key` misses (Python's `None` for a node without a name) -/
+def composeItem (path key : String) : String := if path == "" then "None" else path ++ "[" ++ key ++ "]"
+
+/-- the children of a node that `node(d)` does NOT expose, each with the name the error carries -/
+def absentAt (name : String) : List (String × PNode V) → Int → List (String × String)
+  | [], _ => []
+  | (k, c) :: r, d => if c.definedAt d then absentAt name r d else (k, composeItem name k) :: absentAt name r d
+
+/-! ## `get_descendants` -/
+
+mutual
+/-- the `name`s of `node.get_descendants()`: every child followed by its own descendants, in dict order
+    (a parameter and a scale have none: brackets are not descendants) -/
+def PNode.descNames (name : String) : PNode V → List String
+  | .param _ => []
+  | .scale _ _ => []
+  | .node cs => descAll name cs
+def descAll (name : String) : List (String × PNode V) → List String
+  | [] => []
+  | (k, c) :: r => composeChild name k :: (c.descNames (composeChild name k) ++ descAll name r)
+end
 
 /-! ## Histories over several objects: `clone()` -/
 
